@@ -129,3 +129,22 @@ CHECKS.update({
    design_ref='DESIGN.md 5 C14', note=NOTE_STD + ' The concurrency part of the property is decided by the race-detector harness, not by a theorem.',
    technique='Coq proofs about a store model (alias freedom), permutation invariance of the cycle check, schedule independence of private-state jobs + per-run -race harness with sequential/concurrent result comparison'),
 })
+
+CHECKS.update({
+ 'C03': dict(
+   text=('PARTIAL. Proved, at the compile stage of the literal model (model/Compile.v, from parsed source lines to instructions): the default-modifier tables of load.go equal the independently written reference tables on all opcode/mode combinations '
+         '(\'94) and wherever \'88 accepts; a label used as an operand expands and evaluates to (label line - referring line) mod M for every M up to 2^31; one substitution pass is token-wise and replaces every EQU name by its text wherever it occurs '
+         '(so forward uses are covered: the symbol table is complete before any line is assembled); mnemonics, modifiers and pseudo-ops are recognised under every per-character letter-casing; the entry point of an accepted program is the value of its ORG/END expression '
+         'and the parser\'s metadata is returned unchanged. Together with C06 (fields, lengths, \'88 legality for all line lists) and C07 (expression values). NOT proved: the lexer/parser stages (independence from spacing, blank/comment lines, colon suffixes, label spelling, EQU placement) '
+         'and the end-to-end statement CompileWarrior(render(p)) = meaning(p) (kept as C03_full_statement). That statement is decided on every run by the two-stage correspondence: generated abstract programs rendered under several styles by the extracted renderer, assembled by gmars and by the extracted model, compared with the extracted meaning.'),
+   design_ref='DESIGN.md 5 C03', note=NOTE_STD + ' The end-to-end statement is covered by differential testing against the by-construction meaning; only compile-stage facts are theorems.',
+   technique='Coq lemmas on the compile stage (finite table sweeps lifted by lemma, token-wise characterisation of the substitution pass, label-offset arithmetic) + per-run two-stage differential correspondence against an independent meaning function'),
+ 'C08': dict(
+   text=('PARTIAL. Proved on the literal model of the expander state machine (model/ForExpand.v), for every stream, label list and count: the body is sent count times with the counter replaced by 1..count (nothing for count 0), block labels renamed uniformly and all other tokens kept; '
+         'from the ROF line on, whatever state was reached, exactly the unrolled body is sent and then the rest of the program is copied unchanged up to EOF; on the FOR line the count is the value of the expression over the pre-scanned EQU symbols, the name before FOR is the counter, '
+         'earlier names are block labels, and their renamed forms are sent exactly once, immediately before the first instruction of the body. NOT proved: collection of the body with nesting depth, copying of the lines before the block, the repeat-until-no-FOR driver and the composition into '
+         'CompileWarrior(p) = CompileWarrior(unroll(p)) (kept as C08_full_statement). That statement is decided on every run by the correspondence: generated programs (blocks in sequence, nesting to 3, counts 0..6 from literals and EQUs, counters in inner/outer expressions, block labels) and their extracted unrollings '
+         'assembled by gmars and by the extracted model, compared with each other and with the extracted meaning.'),
+   design_ref='DESIGN.md 5 C08', note=NOTE_STD + ' The end-to-end unrolling equality is covered by differential testing; only the unrolling arithmetic and the ROF / FOR-line phases of the state machine are theorems.',
+   technique='Coq lemmas on the expander state machine (symbolic execution of the ROF phase by induction over the stream, unrolling arithmetic) + per-run differential correspondence of program vs extracted unrolling vs meaning'),
+})
